@@ -30,7 +30,7 @@ func init() {
 		FaultKinds: []string{"split-inside-number", "split-inside-string", "split-inside-escape", "split-inside-rune", "split-inside-literal",
 			"split-in-whitespace", "split-at-structural", "zero-read", "data+eof", "data+err", "eof-inside-value", "eof-clean-early", "err-inside-value", "err-at-boundary",
 			"err-kind-unexpected-eof", "err-kind-custom", "err-kind-wrapped", "cut-right-after-number"},
-		ProbeNames: []string{"refills>1", "value-longer-than-first-read-batch", "whitespace-run>64KiB", "values-decoded", "stream>32KiB", "stream>64KiB", "number-ends-at-read-boundary", "batch-boundary-inside-number", "batch-boundary-inside-token", "batch-boundary-inside-whitespace", "terminal-rechecked", "parse-remainder-checked", "buffered-checked"},
+		ProbeNames: []string{"refills>1", "value-longer-than-first-read-batch", "whitespace-run>64KiB", "values-decoded", "stream>32KiB", "stream>64KiB", "number-ends-at-read-boundary", "batch-boundary-inside-number", "batch-boundary-inside-token", "batch-boundary-inside-whitespace", "terminal-rechecked", "buffered-after-terminal-checked", "parse-remainder-checked", "buffered-checked"},
 		Real:       []string{"json.Decoder (readValue, Buffered, InputOffset), json.Parse, the whole json decode path, compiled from /repo's working tree"},
 		Model:      []string{"io.Reader (simio.Reader: scripted chunking, zero reads, data+err, terminal errors)", "reference: encoding/json.Decoder of the toolchain, fed the delivered bytes in a single read"},
 		Assumptions: []string{
@@ -621,11 +621,44 @@ func c11Exec(r *core.Run, sc *c11Scenario) {
 			return
 		}
 	}
-	// after the terminal error no further value may appear
+	// Buffered after the terminal condition: together with what the reader has
+	// not handed out it is still the unconsumed input (the unfinished value
+	// included); nothing when the input ended cleanly
+	if eofFinal && missing == 0 {
+		buf, _ := io.ReadAll(dec.Buffered())
+		rest := len(buf) + len(rd.Unread())
+		p := cut - rest
+		lo := 0
+		if n := len(spans); n > 0 {
+			lo = spans[n-1].end
+		}
+		hi := lo
+		for hi < cut && isWS(stream[hi]) {
+			hi++
+		}
+		r.Probe("buffered-after-terminal-checked")
+		if p < lo || p > hi || !bytes.Equal(buf, stream[p:p+len(buf)]) {
+			r.Fail("buffered-window", "buffered-after-terminal", "after the terminal error (%v) Buffered has %d bytes and the reader %d unread: they start at stream offset %d, expected within [%d,%d] (end of the last value, start of the unfinished one) and equal to the stream there", termErr, len(buf), len(rd.Unread()), p, lo, hi)
+			return
+		}
+	}
+	// after the terminal error no further value may appear, and the kind of end
+	// does not change: io.EOF stays io.EOF, an end inside a value stays an error
+	// other than io.EOF
 	r.Probe("terminal-rechecked")
 	for i := 0; i < 2; i++ {
 		var raw json.RawMessage
 		err := dec.Decode(&raw)
+		if err != nil && eofFinal && missing == 0 {
+			if cleanRef && err != io.EOF {
+				r.Fail("terminal-error", "clean-eof-not-sticky", "Decode call %d after a clean end of input returned %v instead of io.EOF", i+2, err)
+				return
+			}
+			if !cleanRef && err == io.EOF {
+				r.Fail("terminal-error", "truncated-reports-eof-later", "the stream ends inside a value (first error: %v) but Decode call %d after it returned a clean io.EOF", termErr, i+2)
+				return
+			}
+		}
 		off := dec.InputOffset()
 		if off < prevOff {
 			r.Fail("offset-decreased", "offset-decreased", "InputOffset went from %d to %d on a Decode after the terminal error", prevOff, off)
